@@ -7,13 +7,14 @@ PROP = {
     "coq_targets": ["Properties/C12.vo", "Extract/AroExtract.vo"],
     "properties_file": "Properties/C12.v",
     "theorems": ["C12_replace_converges_export", "C12_replace_converges", "C12_replace_converges_import",
-                 "C12_never_skipped", "C12_never_skipped_contrapositive"],
+                 "C12_never_skipped", "C12_never_skipped_contrapositive", "C12_family_export_converges",
+                 "C12_family_import_converges", "C12_never_skipped_family"],
     "allowed_axioms": [],
     "harness": "c12",
     "modelrun": {"name": "c12", "extracted": ["aro_model"], "driver": aro_props.driver("c12")},
     "tiers": {"quick": {"cases": 2500}, "thorough": {"cases": 60000}},
     "search_cases": 10000,
-    "rule": "three kinds of cases, 2:2:1 - K:E a session's Adj-RIB-Out behind a real Loc-RIB, Loc-RIB changes interleaved "
+    "rule": "four kinds of cases, 2:1:2:1 (K:E, K:I, K:F = the session's entry points fsmAddressFamily.replace{Import,Export}FilterChain incl. their skip test, driven through a verif hook with import and export chains drawn independently from a 5-chain pool, K:Q) - K:E a session's Adj-RIB-Out behind a real Loc-RIB, Loc-RIB changes interleaved "
             "with repeated export-chain replacements; K:I a real Adj-RIB-In (add-path RX) feeding a real Loc-RIB that also holds "
             "paths of another source, repeated import-chain replacements; K:Q pairs of chains for filter.Chain.Equal. Chains from "
             "the bounded language (exact-match route filters; LOCAL_PREF/MED/next-hop/prepend; accept/reject), half of the new "
@@ -24,8 +25,8 @@ PROP = {
         "extraction (ExtrOcamlBasic only) + ocaml/common/conv.ml + ocaml/aro/aro_common.ml + ocaml/c12/c12_run.ml",
         "Go harness harness/cmd/c12 + harness/aro; oracle = the property text: a second, freshly built session with the new "
         "policy fed the same history (import side) / the export view under the new policy computed path by path (export side)",
-        "read, not executed: fsmAddressFamily.replaceImportFilterChain / replaceExportFilterChain skip the replacement iff "
-        "filter.Chain.Equal(new, old) (protocols/bgp/server/fsm_address_family.go)",
+        "hook protocols/bgp/server/verif_hooks_c12.go (an fsmAddressFamily with real Adj-RIB-In/Out around a Loc-RIB, no update "
+        "sender): replaceImportFilterChain / replaceExportFilterChain are executed, skip test included",
     ],
     "assumptions": ["BGP-typed paths carry non-nil BGPPath/BGPPathA/ASPath/NextHop/Source",
                     "route filter patterns and next-hop addresses are deduplicated objects (Chain.Equal compares them by pointer)"],
